@@ -25,6 +25,8 @@ class Opts:
         self.join_kw = "join"
         self.qualify = None           # write unqualified table names as <qualify>.<name>
         self.where_op = "in"
+        self.merge_direct = False     # MERGE ... USING <table> when the source query is one table
+        self.sub_with = False         # every derived table carries a WITH clause of its own: ( WITH zw AS ( Q ) SELECT c1 FROM zw )
         self.isub_form = "plain"      # where a select-list subquery sits: plain | else | then | func | func_in_expr
         self.names_pool = None        # list of alias names used in order (JSON-friendly form of names)
         self.alias_scope = "global"   # "local": alias numbering restarts in every query scope (aliases re-used across scopes)
@@ -83,6 +85,13 @@ class R:
         a = self.alias()
         return toks + ([self.kw("as")] if self.o.as_kw else []) + [self.ident(a)]
 
+    def wrap_with(self, q):
+        if not self.o.sub_with:
+            return q
+        self.nw = getattr(self, "nw", 0) + 1
+        zw = self.ident("zw%d" % self.nw)
+        return [self.kw("with"), zw, self.kw("as"), "("] + q + [")", self.kw("select"), self.ident("c1"), self.kw("from"), zw]
+
     def query(self, into=None):
         """parse branches until 'end'; returns token list"""
         branches = []
@@ -95,7 +104,7 @@ class R:
             if e in ("tbl", "cteref"):
                 cur["from"].append((ev["a"], self.with_alias(self.tname(ev), force=False)))
             elif e == "sub":
-                q = self.query()
+                q = self.wrap_with(self.query())
                 cur["from"].append((ev["a"], self.with_alias(["("] + q + [")"])))
             elif e == "paren":
                 cur["from"].append((ev["a"], ["("] + self.from_list(self.paren_items()) + [")"]))
@@ -163,7 +172,7 @@ class R:
             if e in ("tbl", "cteref"):
                 items.append((ev["a"], self.with_alias(self.tname(ev), force=False)))
             elif e == "sub":
-                q = self.query()
+                q = self.wrap_with(self.query())
                 items.append((ev["a"], self.with_alias(["("] + q + [")"])))
             elif e == "paren":
                 items.append((ev["a"], ["("] + self.from_list(self.paren_items()) + [")"]))
@@ -225,6 +234,7 @@ class R:
             return w + [self.kw("update")] + tgt + [self.kw("set"), self.ident("c1"), "=", "1", self.kw("from")] + self.from_list(body["from"]) + self.tail(body)
         if kind == "select_into":
             return w + self.query(into=tgt)
+        self.pos_main = self.pos
         q = self.query()
         if kind == "insert":
             return [self.kw("insert"), self.kw("into")] + tgt + w + q
@@ -236,6 +246,12 @@ class R:
             return w + q
         if kind == "merge":
             mq = self.ident("mq")
+            body = self.p[self.pos_main:]
+            if self.o.merge_direct and len(body) == 2 and body[0]["e"] in ("tbl", "cteref") and body[1]["e"] == "end":
+                # MERGE INTO tgt USING <table or CTE> mq ON ...: the source named directly, not through a subquery
+                src = self.tname(body[0])
+                return (w + [self.kw("merge"), self.kw("into")] + tgt + [self.kw("using")] + src + [mq, self.kw("on")] + tgt[-1:] + [".", self.ident("c1"), "=", mq, ".", self.ident("c1")]
+                        + [self.kw("when"), self.kw("matched"), self.kw("then"), self.kw("update"), self.kw("set"), self.ident("c1"), "=", mq, ".", self.ident("c1")])
             return (w + [self.kw("merge"), self.kw("into")] + tgt + [self.kw("using"), "("] + q + [")", mq, self.kw("on")] + tgt[-1:] + [".", self.ident("c1"), "=", mq, ".", self.ident("c1")]
                     + [self.kw("when"), self.kw("matched"), self.kw("then"), self.kw("update"), self.kw("set"), self.ident("c1"), "=", mq, ".", self.ident("c1")])
         if kind == "delete":
@@ -251,7 +267,7 @@ class R:
             if e in ("tbl", "cteref"):
                 cur["from"].append((ev["a"], self.with_alias(self.tname(ev), force=False)))
             elif e == "sub":
-                q = self.query()
+                q = self.wrap_with(self.query())
                 cur["from"].append((ev["a"], self.with_alias(["("] + q + [")"])))
             elif e == "paren":
                 cur["from"].append((ev["a"], ["("] + self.from_list(self.paren_items()) + [")"]))
